@@ -347,12 +347,15 @@ func rewritePropertyLookupOperands(kindMapper *contextAwareKindMapper, expressio
 			case pgsql.OperatorCypherStartsWith, pgsql.OperatorCypherEndsWith, pgsql.OperatorCypherContains, pgsql.OperatorRegexMatch:
 				expression.LOperand = rewritePropertyLookupOperator(leftPropertyLookup, pgsql.Text)
 
-				// If the right operand is a literal, it may contain characters that have special meaning in PgSQL
-				// but do not in Cypher. These characters must be escaped
-				if rewrittenROperand, err := rewriteStringWildCardLiteral(expression.ROperand); err != nil {
-					return err
-				} else {
-					expression.ROperand = rewrittenROperand
+				// If the right operand is a literal, it may contain characters that have special meaning in a PgSQL
+				// like pattern but do not in Cypher. These characters must be escaped. A regular expression is not a
+				// like pattern: its backslashes are its own escapes and are left alone
+				if expression.Operator != pgsql.OperatorRegexMatch {
+					if rewrittenROperand, err := rewriteStringWildCardLiteral(expression.ROperand); err != nil {
+						return err
+					} else {
+						expression.ROperand = rewrittenROperand
+					}
 				}
 
 			case pgsql.OperatorEquals, pgsql.OperatorCypherNotEquals:
